@@ -186,6 +186,9 @@ def alias_impl(a):
     if "x0" in sel:
         a = dict(a)
         a["x0"] = sel["x0"]
+    if "x1" in sel:
+        a = dict(a)
+        a["x1"] = sel["x1"]
     pi = [a.get("x%d" % i, 0) for i in range(3)]
     qi = [a.get("y%d" % i, 0) for i in range(3)]
     pseg = [ALPHA[i] for i in pi[:lp]]
@@ -252,7 +255,7 @@ def make_fn(fn, sel, tag):
         pres += ["len(v0) <= 1 and v0.isascii()", "0 <= v1k <= 1"]
         return h.gen_fn(tag, "seq", params, pres, "harness.C08", "seq_impl")
     if fn == "alias":
-        params = [("x%d" % i, "int") for i in range(1 if "x0" in sel else 0, sel["lp"])] + [("y%d" % i, "int") for i in range(sel["lq"])]
+        params = [("x%d" % i, "int") for i in range(sel["lp"]) if ("x%d" % i) not in sel] + [("y%d" % i, "int") for i in range(sel["lq"])]
         pres = ["0 <= %s < %d" % (n, sel["alpha"]) for (n, _t) in params]
         return h.gen_fn(tag, "alias", params, pres, "harness.C08", "alias_impl")
     if fn == "create":
@@ -277,7 +280,11 @@ def queries(tier):
             if lq < lp:
                 continue
             alpha = 3 if (tier == "quick" and lp + lq == 6) else na  # quick: the two longest paths range over {a, b, ab} only
-            if lp + lq >= 5:
+            if lp + lq >= 5 and lp >= 2:
+                for x0 in range(alpha):
+                    for x1 in range(alpha):
+                        qs.append({"id": "alias.%d.%d.x%d%d" % (lp, lq, x0, x1), "fn": "alias", "sel": {"lp": lp, "lq": lq, "alpha": alpha, "x0": x0, "x1": x1}, "timeout": 400 if tier == "quick" else 3000})
+            elif lp + lq >= 4:
                 for x0 in range(alpha):
                     qs.append({"id": "alias.%d.%d.x%d" % (lp, lq, x0), "fn": "alias", "sel": {"lp": lp, "lq": lq, "alpha": alpha, "x0": x0}, "timeout": 400 if tier == "quick" else 3000})
             else:
@@ -305,6 +312,8 @@ def replay(sel, args, fn):
         args = dict(args)
         if "x0" in sel:
             args["x0"] = sel["x0"]
+        if "x1" in sel:
+            args["x1"] = sel["x1"]
         pseg = [ALPHA[args.get("x%d" % i, 0)] for i in range(lp)]
         qseg = [ALPHA[args.get("y%d" % i, 0)] for i in range(lq)]
         p, q = "/" + "/".join(pseg), "/" + "/".join(qseg)
